@@ -535,7 +535,7 @@ impl Harness for C18 {
     fn budget(&self, tier: Tier) -> Budget {
         match tier {
             Tier::Quick => Budget {
-                runs: 150_000,
+                runs: 250_000,
                 soft_s: 60,
             },
             Tier::Thorough => Budget {
